@@ -63,11 +63,17 @@ def s1(ck, an):
              f"_steps = {[ast.unparse(s.value) for s in st if isinstance(s, ast.Assign)]}", construct="self._steps = steps")
     fv = an.fa("PartitionTimeRanges.verify_start_before_end")
     ok = False
-    for r in raises_in(fv):
-        sg = fv.syntactic_guards(r)
-        if len(sg) == 1 and sg[0][0] == "rel" and sg[0][1] == "<":
-            p = sg[0][4]
-            if poly_mentions(p, "end", sign=+1) and poly_mentions(p, "start", sign=-1):
+    floops = [n for n in walk_function(fv.f.node) if isinstance(n, ast.For) and fv.sym.canon(n.iter) == "self.folds.items()"]
+    for lp in floops:
+        # for name, (start, end) in self.folds.items(): the window's two ends, found by their position in the target
+        t = lp.target
+        if not (isinstance(t, ast.Tuple) and len(t.elts) == 2 and isinstance(t.elts[1], ast.Tuple) and len(t.elts[1].elts) == 2 and all(isinstance(x, ast.Name) for x in t.elts[1].elts)):
+            continue
+        at = fv.node_of(lp.body[0]).id
+        start_v, end_v = (fv.sym.ev(ast.Name(id=x.id, ctx=ast.Load()), at) for x in t.elts[1].elts)
+        for r in raises_in(fv):
+            sg = fv.syntactic_guards(r)
+            if len(sg) == 1 and sg[0][0] == "rel" and sg[0][1] == "<" and sg[0][4] == end_v - start_v:
                 ok = True
     ck.check(ok, "CMP", "S1.fold-well-formed", fv.f.short, fv.f.loc, "a fold with end < start is rejected", "verify_start_before_end does not raise for end < start", construct="if end < start: raise")
     fi = an.fa("PartitionTimeRanges.__init__")
@@ -177,7 +183,10 @@ def s3(ck, an):
     rs = fr.calls_to("Transmitter._reset", "AbstractTransmitter._reset")
     for c in rs:
         args = [fr.sym.canon(a) for a in c.args]
-        ck.check(len(args) >= 2 and args[0] == "fold" and "self._episode_length" in args[1] and "episode_length" in args[1], "ARGFLOW", "S3.reset-passes-length", fr.f.short, fr.loc(c),
+        alts = {fr.sym.canon(ast.parse(t, mode="eval").body, fr.cfg.entry.id) for t in (
+            "episode_length or self._episode_length", "episode_length if episode_length else self._episode_length",
+            "self._episode_length if episode_length is None else episode_length", "episode_length if episode_length is not None else self._episode_length")}
+        ck.check(len(args) >= 2 and args[0] == "fold" and args[1] in alts, "ARGFLOW", "S3.reset-passes-length", fr.f.short, fr.loc(c),
                  "reset hands the fold and the (override or configured) length to the transmitter", f"_reset({', '.join(args)})", construct=stmt_text(c))
     nx = fr.calls_to("Transmitter._next", "AbstractTransmitter._next")
     ck.check(len(nx) == 1, "PATHCOUNT", "S3.reset-fetches-one-batch", fr.f.short, fr.f.loc, "reset fetches exactly one batch (the first state)", f"reset calls _next() {len(nx)} times", construct="self._transmitter._next()")
